@@ -9,6 +9,8 @@ def vbool(b): return {"k": "bool", "v": b}
 def vint(n): return {"k": "int", "v": n}
 def vfloat(x): return {"k": "float", "q": int(round(x * 4))}
 def vstr(s): return {"k": "str", "v": s}
+def vbig(n): return {"k": "int", "v": 0, "sp": "big", "hi": n >> 30, "lo": n & ((1 << 30) - 1), "s": str(n)}      # an integer >= 2^30: exact, compare-only
+def vnan(): return {"k": "float", "q": 0, "sp": "nan"}
 def varr(es): return {"k": "arr", "e": es}
 def vobj(fs): return {"k": "obj", "f": [{"name": n, "v": v} for n, v in fs]}
 
@@ -458,7 +460,7 @@ class Gen:
 
 def all_programs(tier, seed):
     rnd = random.Random(seed)
-    progs = operator_table() + precedence_table() + control_table() + optimizer_table() + match_table() + string_table() + status_table() + function_table()
+    progs = operator_table() + precedence_table() + control_table() + optimizer_table() + match_table() + string_table() + status_table() + function_table() + special_numbers_table()
     g = Gen(rnd)
     for _ in range(600 if tier == "quick" else 12000):
         progs.append(g.program())
@@ -796,4 +798,25 @@ def function_table():
     P([func("pick", ["v"], [ret(match_(var("v"), [(plit(vint(1)), None, S("one")), (pvar("n"), None, add(var("n"), I(1)))]))])], [ret(arr([fcall("pick", I(1)), fcall("pick", I(5))]))], ["match-in-function"])
     P([addf, fact], [ret(fcall("addf", fcall("fact", I(3)), fcall("fact", I(4))))], ["nested-calls"])
     P([addf], [decl("f", async_([ret(fcall("addf", I(1), I(2)))])), ret(await_(var("f")))], ["call-in-async-block"])
+    return out
+
+
+# ---- numbers the specification cannot compute with but can order: big integers, NaN -------------------------------
+def special_numbers_table():
+    out = []
+    P = lambda body, tags, vars_=(): out.append(prog("", body, vars_, ["numbers"] + tags))
+    bigs = [2 ** 53, 2 ** 53 + 1, 2 ** 53 + 2, 2 ** 60, 2 ** 60 + 1, 2 ** 31, 2 ** 31 + 1]      # hi = n >> 30 must stay below 2^31 for TLC
+    for a in bigs:
+        for b in bigs:
+            if abs(bigs.index(a) - bigs.index(b)) <= 1 or (a, b) in ((2 ** 53, 2 ** 60), (2 ** 60, 2 ** 53)):
+                P([ret(arr([bin_(op, lit(vbig(a)), lit(vbig(b))) for op in ("<", "<=", ">", ">=", "==", "!=")]))], ["big-int-ordering", "%d-vs-%d" % (bigs.index(a), bigs.index(b))])
+                P([decl("x", lit(vbig(a))), decl("y", lit(vbig(b))), if_(bin_("<", var("x"), var("y")), [ret(lit(vstr("less")))]), if_(bin_(">", var("x"), var("y")), [ret(lit(vstr("greater")))]), ret(lit(vstr("same")))],
+                  ["big-int-branch", "%d-vs-%d" % (bigs.index(a), bigs.index(b))])
+        P([ret(arr([bin_(op, lit(vbig(a)), lit(vint(7))) for op in ("<", ">", "==")] + [bin_(op, lit(vint(7)), lit(vbig(a))) for op in ("<", ">", "!=")]))], ["big-vs-small", str(bigs.index(a))])
+        P([decl("i", lit(vbig(a))), decl("n", lit(vint(0))), while_(bin_("<", var("i"), lit(vbig(a + 1))), [set_("n", bin_("+", var("n"), lit(vint(1)))), set_("i", lit(vbig(a + 1)))]), ret(var("n"))], ["big-loop-bound", str(bigs.index(a))])
+    # NaN arrives as a float input; every ordering with it is false, it equals nothing
+    for other in (lit(vfloat(1.0)), lit(vint(0)), var("x")):
+        P([ret(arr([bin_(op, var("x"), other) for op in ("<", "<=", ">", ">=", "==", "!=")] + [bin_(op, other, var("x")) for op in ("<", "<=", ">", ">=")]))], ["nan-ordering"], [("x", vnan())])
+    P([if_(bin_("<", var("x"), lit(vfloat(1.0))), [ret(lit(vstr("less")))], [if_(bin_(">=", var("x"), lit(vfloat(1.0))), [ret(lit(vstr("not-less")))], [ret(lit(vstr("unordered")))])])], ["nan-branches"], [("x", vnan())])
+    P([decl("y", bin_("+", var("x"), lit(vfloat(1.0)))), ret(arr([bin_("<", var("y"), lit(vfloat(0.0))), bin_("==", var("y"), var("y"))]))], ["nan-propagates"], [("x", vnan())])
     return out
